@@ -186,8 +186,28 @@ def oracle_base_requirement(world, out, pid=ID):
     return vs
 
 
+def oracle_constructed_feasible(world, out, pid=ID):
+    """The generating routes satisfy every constraint to the requested fraction, so a model whose k admits them
+    cannot be infeasible: constraints (and the machinery acting on them) remove nothing but violating solutions."""
+    vs = []
+    if not world.get("constructed_feasible") or out.get("construct_exc") or out.get("solve_exc") or out.get("system_exit"):
+        return vs
+    if sum(out.get("fired", {}).values()) > 0:
+        return vs
+    args = world["args"]
+    if not (args.get("subpath_constraints") or args.get("subset_constraints")):
+        return vs
+    cname = world["class"]
+    if cname in ("kFlowDecomp", "MinFlowDecomp", "kFlowDecompCycles", "MinFlowDecompCycles") and args.get("solution_weights_superset") is None and args.get("elements_to_ignore"):
+        return vs
+    if not out["solved"]:
+        vs.append(Violation(pid, pid + ".satisfiable_constraints_made_infeasible", cname + ("/node" if mr._node_mode(world) else ""),
+                            {"generating_routes": world["graph"].get("routes"), "weights": world["graph"].get("weights"), "k": args.get("k")}))
+    return vs
+
+
 def execute(spec):
-    res = base.execute(spec, oracles=[mr.oracle_c10, oracle_base_requirement], pid=ID)
+    res = base.execute(spec, oracles=[mr.oracle_c10, oracle_base_requirement, oracle_constructed_feasible], pid=ID)
     if spec.get("monitor") and "violations" in res:
         try:
             out0, _, _ = mr.run(spec["world"], spec["sim"], seed=1)
